@@ -76,7 +76,7 @@ def check_value(c):
 
 
 def small_cases(tier, rnd):
-    top = 12 if tier == "quick" else 16
+    top = 13 if tier == "quick" else 16
     for n in range(top + 1):
         for x in range(1 << n):
             yield {"n": n, "x": x}
@@ -188,7 +188,7 @@ FACETS = [
     Facet("small-exhaustive", check_value, cases=small_cases, exhaustive=True, distinct=True,
           nontrivial=nontriv_value, classify=lambda c: ("n=%d" % c["n"],),
           shards={"quick": 8, "thorough": 16},
-          rule="every size 0..12 (0..16 thorough) and every value: all constructors, all conversions, all round trips"),
+          rule="every size 0..13 (0..16 thorough) and every value: all constructors, all conversions, all round trips"),
     Facet("wide-sampled", check_value, strategy=wide_strategy, budget={"quick": 600, "thorough": 12000},
           nontrivial=nontriv_value,
           classify=lambda c: ("n%8==0" if c["n"] % 8 == 0 else "n%8!=0", "n>256" if c["n"] > 256 else "n<=256"),
